@@ -291,8 +291,44 @@ func judge(c *Case) *core.Verdict {
 					return fail("units-differ", "module %s path %s: specification %q, library %q", n, p, f.Units, g.Units)
 				case g.Type != f.Type:
 					return fail("type-differs", "module %s path %s: specification %q, library %q", n, p, f.Type, g.Type)
+				case strings.Join(g.Dv, "|") != strings.Join(f.Dv, "|"):
+					return fail("default-values-differ", "module %s path %s: DefaultValues(): specification %q, library %q", n, p, f.Dv, g.Dv)
 				case strings.Join(g.Iff, "|") != strings.Join(f.Iff, "|"):
 					return fail("constraints-differ", "module %s path %s: if-feature: specification %q, library %q", n, p, f.Iff, g.Iff)
+				}
+			}
+		}
+	}
+	if c.Prop == "C06" {
+		// the copies do not depend on whether the uses statements are also recorded (ParseOptions.StoreUses)
+		ms2 := yang.NewModules()
+		ms2.ParseOptions.StoreUses = true
+		ms2.ParseOptions.DeviateOptions.IgnoreDeviateNotSupported = c.Prog.IgnoreNS
+		ok := true
+		for _, n := range names {
+			if err := ms2.Parse(RenderModule(c.Prog.Mods[n]), n+".yang"); err != nil {
+				ok = false
+			}
+		}
+		if ok {
+			if errs2 := ms2.Process(); len(errs2) > 0 {
+				return fail("option-changes-outcome", "with ParseOptions.StoreUses the same modules give errors: %v", errs2)
+			}
+			for _, n := range names {
+				if m := ms2.Modules[n]; m != nil {
+					o2 := Flatten(yang.ToEntry(m))
+					for p, a := range obs[n] {
+						b, ok := o2[p]
+						if !ok {
+							return fail("option-changes-outcome", "module %s path %s exists by default and is missing with ParseOptions.StoreUses", n, p)
+						}
+						if fmt.Sprintf("%+v|%s", a.Fact, a.Imod) != fmt.Sprintf("%+v|%s", b.Fact, b.Imod) {
+							return fail("option-changes-outcome", "module %s path %s: by default %+v, with ParseOptions.StoreUses %+v", n, p, a.Fact, b.Fact)
+						}
+					}
+					if len(o2) != len(obs[n]) {
+						return fail("option-changes-outcome", "module %s has %d nodes by default and %d with ParseOptions.StoreUses", n, len(obs[n]), len(o2))
+					}
 				}
 			}
 		}
@@ -574,6 +610,7 @@ func init() {
 		r.Assumptions = []string{"starts at rpc input/output that Find creates on demand are covered by C04"}
 		designRun(r, "C17", tierCfgs(r, []string{"aug_quick", "aug_late", "uses_quick", "aug_pair", "split"}, []string{"uses", "cfg", "aug_sub"}), nil)
 		directionB(r, "C17", false)
+		RegistryReg(r) // several revisions of one module: a prefix reaches the tree of the module the import denotes
 	}
 }
 
@@ -664,6 +701,7 @@ func init() {
 		r.Assumptions = []string{"must / unique deviations, delete default on a leaf-list, replace default where none exists, delete of an implicit element bound are outside the claim (DESIGN.md D.1)"}
 		designRun(r, "C08", tierCfgs(r, []string{"dev1", "dev2", "dev3", "dev_triples"}, nil), nil)
 		directionB(r, "C08", false)
+		RegistryReg(r) // several revisions of the target module: a deviation lands in the one the import denotes
 		SessionHistories(r, "C08", "dv")
 	}
 }
@@ -671,8 +709,12 @@ func init() {
 // SessionHistories is set by the session family (which imports this package).
 var SessionHistories = func(r *core.Run, prop string, texts ...string) {}
 
-// C13Registry is set by the registry family.
-var C13Registry = func(r *core.Run) {}
+// C13Registry, RegistryReg and RegistryFs are set by the registry family.
+var (
+	C13Registry = func(r *core.Run) {}
+	RegistryReg = func(r *core.Run) {}
+	RegistryFs  = func(r *core.Run) {}
+)
 
 func init() {
 	core.Checks["C13"] = func(r *core.Run) {
